@@ -100,6 +100,11 @@ def util_oracle(res, cux, s):
         except Exception as e:
             res.violation('split_complex_pt:raises:' + type(e).__name__, {'op': ['split', ' '.join(seq0), s]}, type(e).__name__, 'components, twice')
         cu.fresh_results(res, 'split_complex_db', lambda: cux.split_complex_db(list(seq0), list(sst0)), {'op': ['split', ' '.join(seq0), s]})
+        cu.same_for_forms(res, 'split_complex_db', [('structure as list', lambda: cux.split_complex_db(list(seq0), list(sst0))),
+                                                    ('structure as str', lambda: cux.split_complex_db(list(seq0), s))], {'op': ['split', ' '.join(seq0), s]})
+        cu.same_for_forms(res, 'split_complex_pt', [('lists', lambda: cux.split_complex_pt(cux.make_strand_table(list(seq0)), cux.make_pair_table(s))),
+                                                    ('tuples', lambda: [(list(map(list, a)), b) for a, b in cux.split_complex_pt(cu.tup(cux.make_strand_table(list(seq0))), cu.tup(cux.make_pair_table(s)))])],
+                          {'op': ['split', ' '.join(seq0), s]})
     got = 'ok ' + ' ; '.join(' '.join(a) + ' / ' + ''.join(b) for a, b in parts)
     orig_strands = list(_split(seq0))
     ok = len(parts) == len(comps)
